@@ -902,7 +902,8 @@ bool BotanRSA::decrypt(PrivateKey* privateKey, const ByteString& encryptedData,
 	else
 	{
 		data.resize(decResult.size());
-		memcpy(&data[0], decResult.data(), decResult.size());
+		if (decResult.size() > 0)
+			memcpy(&data[0], decResult.data(), decResult.size());
 	}
 
 	delete decryptor;
